@@ -154,7 +154,7 @@ theorem stmt_skel_compileLabeledDoWhileStatement : Gen.skel_compileLabeledDoWhil
 theorem stmt_skel_compileLabeledForStatement : Gen.skel_compileLabeledForStatement =
     "typeswitch{case(*ast.ForLoopInitializerVarDeclList){range(init.List){c.compileVarBinding(expr);}}case(*ast.ForLoopInitializerExpression){c.compileExpression(init.Expression).emitGetter(false);}}if(needResult){c.emit(clearResult);}set testConst=false;if(v.Test!=nil){if(expr.constant()){if(ex==nil){if(r.ToBoolean()){set testConst=true;}else{c.enterDummyMode();c.compileStatement(v.Body,false);if(v.Update!=nil){c.compileExpression(v.Update).emitGetter(false);}leave();goto end;}}else{c.emitThrow(ex.val);goto end;}}else{expr.emitGetter(true);c.emit(nil);}}if(needResult){c.emit(clearResult);}c.compileStatement(v.Body,needResult);if(v.Update!=nil){c.compileExpression(v.Update).emitGetter(false);}c.emit(jump(start-len(c.p.code)));if(v.Test!=nil){if(!testConst){patch jneP(len(c.p.code)-j);}}end:" := rfl
 theorem stmt_skel_compileReturnStatement : Gen.skel_compileReturnStatement =
-    "if(v.Argument!=nil){c.emitExpr(c.compileExpression(v.Argument),true);}else{c.emit(loadUndef);}c.emit(ret);" := rfl
+    "if(v.Argument!=nil){c.emitExpr(c.compileExpression(v.Argument),true);}else{c.emit(loadUndef);}for{switch{case(blockTry){c.emit(saveResult,leaveTry{},loadResult);}}}c.emit(ret);" := rfl
 theorem stmt_skel_compileThrowStatement : Gen.skel_compileThrowStatement =
     "c.compileExpression(v.Argument).emitGetter(true);c.emit(throw);" := rfl
 theorem stmt_skel_emitVarAssign : Gen.skel_emitVarAssign =
@@ -165,6 +165,20 @@ theorem stmt_skel_compileStatementsNeedResult : Gen.skel_compileStatementsNeedRe
     "if(lastProducingIdx>=0){range(<*ast.SliceExpr>){c.compileStatement(st,containsBranch(st));}c.compileStatement(list[lastProducingIdx],true);}range(<*ast.SliceExpr>){c.compileStatement(st,false);}" := rfl
 theorem stmt_skel_scanStatements : Gen.skel_scanStatements =
     "set lastProducingIdx=-1;range(list){if(!c.isEmptyResult(st)){set lastProducingIdx=i;}}return;" := rfl
+
+/-- TIE 6 (continued): the methods behind the `break` / `continue` / `try` model (Stmt2.lean): the try layout with the
+`needResult` rule of a finally block that ends in a branch (the catch-parameter scope is outside the model: only the
+parameter-less arm is pinned), the block exit code for try blocks, the two placeholders, and `leaveBlock`'s patching. -/
+theorem stmt_skel_compileTryStatement : Gen.skel_compileTryStatement =
+    "if(finallyBreaking!=nil){if(lp==-1){set bodyNeedResult=finallyBreaking.needResult;}}else{set bodyNeedResult=needResult;}c.emit(nil);if(needResult){c.emit(clearResult);}c.compileBlockStatement(v.Body,bodyNeedResult);if(v.Catch!=nil){c.emit(nil);else(v.Catch.Parameter!=nil){c.emit(pop);c.compileBlockStatement(v.Catch.Body,bodyNeedResult);}patch jump(len(c.p.code)-lbl2);}if(v.Finally!=nil){c.emit(enterFinally{});if(bodyNeedResult&&finallyBreaking!=nil&&lp==-1){c.emit(clearResult);}c.compileBlockStatement(v.Finally,false);c.emit(leaveFinally{});}else{c.emit(leaveTry{});}patch try{catchOffset,finallyOffset};" := rfl
+theorem stmt_skel_emitBlockExitCode : Gen.skel_emitBlockExitCode =
+    "if(block==nil){c.throwSyntaxError(int(idx)-1,\"Could not find block\");}L:for{switch{case(blockTry){c.emit(leaveTry{});}}}return;" := rfl
+theorem stmt_skel_compileBreak : Gen.skel_compileBreak =
+    "c.emit(nil);" := rfl
+theorem stmt_skel_compileContinue : Gen.skel_compileContinue =
+    "c.emit(nil);" := rfl
+theorem stmt_skel_leaveBlock : Gen.skel_leaveBlock =
+    "range(c.block.breaks){patch jump(lbl-item);}if(t==blockLoop||t==blockLoopEnum){range(c.block.conts){patch jump(c.block.cont-item);}}" := rfl
 
 /-- TIE 6b: which statements have an empty result (`isEmptyResult`, compiler_stmt.go:881): the case list behind
 `Stmt.emptyResult`, and "everything else produces a value" (no default clause, final `return false`). -/
